@@ -24,7 +24,29 @@ def make_session(h, repo_root):
     s.proxy_safe = {("pyneqsys.symbolic", "linear_exprs")}
     s.max_unroll = 64
     s.allow_havoc = h.allow_havoc
+    s.alt_backend = cvc5_backend
+    s.keep_smt2 = True
     return s
+
+
+def cvc5_backend(path, goal, ob):
+    """second opinion for obligations z3 left open (strings): the same VC exported as SMT-LIB to cvc5"""
+    from .smt import cvc5_check
+    if not ob.smt2 or "String" not in ob.smt2:
+        return
+    t0 = time.time()
+    text = "(set-logic ALL)\n" + ob.smt2 + "\n"
+    res, why = cvc5_check(text, timeout_s=20)
+    ob.seconds += time.time() - t0
+    ob.smt2 = None
+    if res == "unsat":
+        ob.result = "discharged"
+        ob.backend = "cvc5"
+        ob.detail += " [z3 unknown; cvc5 --strings-exp: unsat]"
+    elif res == "sat":
+        ob.detail += " [cvc5: sat]"
+    else:
+        ob.detail += " [cvc5: %s]" % why
 
 
 def jsonable(x, depth=0):
